@@ -1,7 +1,465 @@
-//! C39 — not built yet.
-use lv_common::Ctx;
+//! C39 — Peer tracker counts match peer states.
+//!
+//! Generated event histories are interpreted in lock-step by the real `PeerTracker` (through the
+//! `PeerTrackerSim` hook) and by an abstract model. After every event:
+//!   * `info()` equals a recount over the tracker's own peers AND a recount over the model,
+//!   * `protected_len(tag)` equals the number of model peers protected with `tag`,
+//!   * the watch channel carries `info()` (and flagged a change whenever the value changed),
+//!   * after `gc` no connected or protected peer was forgotten.
 
-pub fn run(_ctx: &mut Ctx) {
-    eprintln!("C39: check not built yet");
-    std::process::exit(2);
+use std::collections::{BTreeMap, BTreeSet};
+use std::time::Duration;
+
+use libp2p::PeerId;
+use lumina_node::node::PeerTrackerInfo;
+use lumina_node::verif::{PeerTrackerSim, VerifPeerState};
+use lv_common::prelude::*;
+
+pub const MAX_PEERS: usize = 8;
+pub const MAX_CONNS: u8 = 3;
+pub const TAGS: u32 = 4;
+/// `EXPIRED_AFTER` of peer_tracker.rs (the documented expiry of disconnected peers), in ms
+const EXPIRY_MS: u64 = 120_000;
+
+/// Deterministic peer id: sha2-256 multihash of (seed, idx).
+pub fn peer_id(seed: u64, idx: u8) -> PeerId {
+    let d = lv_gen::refs::sha256(&[b"lv-peer", &seed.to_le_bytes(), &[idx]]);
+    let mh = multihash::Multihash::<64>::wrap(0x12, &d).expect("32-byte digest fits");
+    PeerId::from_multihash(mh).expect("sha2-256 multihash is a valid peer id")
+}
+
+#[derive(Clone, Debug, Serialize, Deserialize)]
+pub enum Ev {
+    AddConn { p: u8, c: u8 },
+    RemConn { p: u8, c: u8 },
+    Trust { p: u8, t: bool },
+    Protect { p: u8, tag: u8 },
+    Unprotect { p: u8, tag: u8 },
+    Archival { p: u8 },
+    Agent { p: u8, s: String },
+    AddPeerId { p: u8 },
+    Gc,
+    Age { secs: u16 },
+}
+
+#[derive(Clone, Debug, Serialize, Deserialize)]
+pub struct Case {
+    pub seed: u64,
+    pub n_peers: u8,
+    pub evs: Vec<Ev>,
+}
+
+const AGENTS: &[&str] = &[
+    "lumina/celestia/0.14.0",
+    "celestia-node/celestia/bridge/v0.24.1/fb95d45",
+    "celestia-node/celestia/full/v0.24.1/fb95d45",
+    "celestia-node/celestia/light/v0.24.1/fb95d45",
+    "probelab-node/celestia/ant/v0.1.0",
+    "",
+    "lumina",
+    "/lumina/celestia",
+    "celestia-node",
+    "celestia-node/celestia",
+    "celestia-node/celestia/full",
+    "celestia-node//bridge",
+    "celestia-node/celestia/FULL/v1",
+    "celestia-node/full/celestia/v1",
+    "Lumina/celestia/0.1",
+];
+
+fn agent_strategy() -> impl Strategy<Value = String> {
+    prop_oneof![
+        6 => (0usize..AGENTS.len()).prop_map(|i| AGENTS[i].to_string()),
+        1 => "[a-z/-]{0,16}",
+        1 => "(lumina|celestia-node)(/[a-z]{0,6}){0,4}",
+    ]
+}
+
+fn ev_strategy() -> impl Strategy<Value = Ev> {
+    let p = || 0u8..MAX_PEERS as u8;
+    prop_oneof![
+        8 => (p(), 0u8..MAX_CONNS).prop_map(|(p, c)| Ev::AddConn { p, c }),
+        6 => (p(), 0u8..MAX_CONNS).prop_map(|(p, c)| Ev::RemConn { p, c }),
+        3 => (p(), any::<bool>()).prop_map(|(p, t)| Ev::Trust { p, t }),
+        4 => (p(), 0u8..TAGS as u8).prop_map(|(p, tag)| Ev::Protect { p, tag }),
+        4 => (p(), 0u8..TAGS as u8).prop_map(|(p, tag)| Ev::Unprotect { p, tag }),
+        2 => p().prop_map(|p| Ev::Archival { p }),
+        4 => (p(), agent_strategy()).prop_map(|(p, s)| Ev::Agent { p, s }),
+        1 => p().prop_map(|p| Ev::AddPeerId { p }),
+        3 => Just(Ev::Gc),
+        3 => prop_oneof![2 => 1u16..60, 2 => 100u16..140, 2 => 150u16..400].prop_map(|secs| Ev::Age { secs }),
+    ]
+}
+
+fn case_strategy(max_evs: usize) -> impl Strategy<Value = Case> {
+    (any::<u64>(), 1u8..=MAX_PEERS as u8, prop::collection::vec(ev_strategy(), 10..=max_evs)).prop_map(|(seed, n_peers, evs)| Case { seed, n_peers, evs })
+}
+
+#[derive(Clone, Copy, Debug, PartialEq, Eq)]
+enum Kind {
+    Unknown,
+    Bridge,
+    Full,
+    Light,
+}
+
+impl Kind {
+    fn is_full(self) -> bool {
+        matches!(self, Kind::Full | Kind::Bridge)
+    }
+    fn name(self) -> &'static str {
+        match self {
+            Kind::Unknown => "Unknown",
+            Kind::Bridge => "Bridge",
+            Kind::Full => "Full",
+            Kind::Light => "Light",
+        }
+    }
+}
+
+/// Independent transcription of the documented agent-version rule: `lumina/...` is a light node,
+/// `celestia-node/<network>/<bridge|full|light>/...` names its kind, anything else is unknown.
+fn kind_of_agent(s: &str) -> Kind {
+    let parts: Vec<&str> = s.split('/').collect();
+    match parts.first().copied() {
+        Some("lumina") => Kind::Light,
+        Some("celestia-node") => match parts.get(2).copied() {
+            Some("bridge") => Kind::Bridge,
+            Some("full") => Kind::Full,
+            Some("light") => Kind::Light,
+            _ => Kind::Unknown,
+        },
+        _ => Kind::Unknown,
+    }
+}
+
+#[derive(Clone, Debug)]
+struct MPeer {
+    conns: BTreeSet<usize>,
+    trusted: bool,
+    archival: bool,
+    kind: Kind,
+    tags: BTreeSet<u32>,
+    /// model time since disconnection (None while connected)
+    age_ms: Option<u64>,
+}
+
+impl MPeer {
+    fn new() -> Self {
+        MPeer {
+            conns: BTreeSet::new(),
+            trusted: false,
+            archival: false,
+            kind: Kind::Unknown,
+            tags: BTreeSet::new(),
+            age_ms: Some(0),
+        }
+    }
+    fn connected(&self) -> bool {
+        !self.conns.is_empty()
+    }
+    fn protected(&self) -> bool {
+        !self.tags.is_empty()
+    }
+}
+
+fn recount_model(m: &BTreeMap<u8, MPeer>) -> PeerTrackerInfo {
+    let mut i = PeerTrackerInfo::default();
+    for p in m.values().filter(|p| p.connected()) {
+        i.num_connected_peers += 1;
+        i.num_connected_trusted_peers += p.trusted as u64;
+        i.num_connected_full_nodes += p.kind.is_full() as u64;
+        i.num_connected_archival_nodes += p.archival as u64;
+    }
+    i
+}
+
+fn recount_real(ps: &[VerifPeerState]) -> PeerTrackerInfo {
+    let mut i = PeerTrackerInfo::default();
+    for p in ps.iter().filter(|p| p.num_connections > 0) {
+        i.num_connected_peers += 1;
+        i.num_connected_trusted_peers += p.trusted as u64;
+        i.num_connected_full_nodes += p.full as u64;
+        i.num_connected_archival_nodes += p.archival as u64;
+    }
+    i
+}
+
+fn run_case(case: &Case, obs: &mut Obs) -> Result<(), Failure> {
+    let n = (case.n_peers as usize).clamp(1, MAX_PEERS);
+    let ids: Vec<PeerId> = (0..n as u8).map(|i| peer_id(case.seed, i)).collect();
+    let idx_of = |id: &PeerId| ids.iter().position(|x| x == id).map(|i| i as u8);
+    let mut real = PeerTrackerSim::new();
+    let mut model: BTreeMap<u8, MPeer> = BTreeMap::new();
+    let mut last_seen = PeerTrackerInfo::default();
+    let mut rolling = digest_bytes(&case.seed.to_le_bytes());
+    let mut last_observable = 0u64;
+
+    for (step, ev) in case.evs.iter().enumerate() {
+        let pi = |p: u8| (p as usize).min(n - 1) as u8; // monotone (shrinks towards peer 0)
+        let mut gc_ran = false;
+        match ev {
+            Ev::AddConn { p, c } => {
+                let p = pi(*p);
+                real.add_connection(&ids[p as usize], *c as usize);
+                let m = model.entry(p).or_insert_with(MPeer::new);
+                let was = m.connected();
+                m.conns.insert(*c as usize);
+                if !was {
+                    if m.age_ms.is_some() && (m.trusted || m.archival || m.protected()) {
+                        obs.label("connect-with-prior-flags");
+                    }
+                    m.age_ms = None;
+                }
+                if m.conns.len() > 1 {
+                    obs.label("multi-connection-peer");
+                }
+            }
+            Ev::RemConn { p, c } => {
+                let p = pi(*p);
+                real.remove_connection(&ids[p as usize], *c as usize);
+                if let Some(m) = model.get_mut(&p) {
+                    let was = m.connected();
+                    let had = m.conns.remove(&(*c as usize));
+                    if !m.connected() {
+                        // connection-scoped attributes end with the last connection; a removal that
+                        // leaves the peer without connections (re)starts its disconnected period
+                        if !was {
+                            obs.label("remconn-on-disconnected-peer");
+                        } else {
+                            obs.label("last-connection-removed");
+                        }
+                        m.kind = Kind::Unknown;
+                        m.archival = false;
+                        m.age_ms = Some(0);
+                    } else if had {
+                        obs.label("non-last-connection-removed");
+                    }
+                }
+            }
+            Ev::Trust { p, t } => {
+                let p = pi(*p);
+                real.set_trusted(&ids[p as usize], *t);
+                model.entry(p).or_insert_with(MPeer::new).trusted = *t;
+            }
+            Ev::Protect { p, tag } => {
+                let p = pi(*p);
+                real.protect(&ids[p as usize], *tag as u32);
+                model.entry(p).or_insert_with(MPeer::new).tags.insert(*tag as u32);
+            }
+            Ev::Unprotect { p, tag } => {
+                let p = pi(*p);
+                real.unprotect(&ids[p as usize], *tag as u32);
+                if let Some(m) = model.get_mut(&p) {
+                    if m.tags.remove(&(*tag as u32)) {
+                        obs.label("unprotect-removed-tag");
+                    }
+                }
+            }
+            Ev::Archival { p } => {
+                let p = pi(*p);
+                real.mark_as_archival(&ids[p as usize]);
+                model.entry(p).or_insert_with(MPeer::new).archival = true;
+            }
+            Ev::Agent { p, s } => {
+                let p = pi(*p);
+                real.on_agent_version(&ids[p as usize], s);
+                if let Some(m) = model.get_mut(&p) {
+                    if m.connected() {
+                        m.kind = kind_of_agent(s);
+                        obs.label(match m.kind {
+                            Kind::Unknown => "agent-unknown",
+                            Kind::Bridge => "agent-bridge",
+                            Kind::Full => "agent-full",
+                            Kind::Light => "agent-light",
+                        });
+                    }
+                }
+            }
+            Ev::AddPeerId { p } => {
+                let p = pi(*p);
+                real.add_peer_id(&ids[p as usize]);
+                model.entry(p).or_insert_with(MPeer::new);
+            }
+            Ev::Gc => {
+                real.gc();
+                gc_ran = true;
+            }
+            Ev::Age { secs } => {
+                real.verif_age_disconnected(Duration::from_secs(*secs as u64));
+                for m in model.values_mut() {
+                    if let Some(a) = m.age_ms.as_mut() {
+                        *a += *secs as u64 * 1000;
+                    }
+                }
+            }
+        }
+
+        let peers = real.peers();
+
+        // ---- gc: nothing connected or protected may be forgotten; model follows what gc dropped
+        if gc_ran {
+            let present: BTreeSet<u8> = peers.iter().filter_map(|p| idx_of(&p.id)).collect();
+            let mut dropped = Vec::new();
+            for (i, m) in &model {
+                let expired = m.age_ms.is_some_and(|a| a >= EXPIRY_MS);
+                if present.contains(i) {
+                    if m.connected() {
+                        obs.label("gc-kept-connected");
+                    }
+                    if m.protected() && !m.connected() {
+                        obs.label(if expired { "gc-kept-protected-expired" } else { "gc-kept-protected-recent" });
+                    }
+                    if !m.connected() && !m.protected() {
+                        obs.label(if expired { "gc-kept-unprotected-expired" } else { "gc-kept-recently-disconnected" });
+                    }
+                    continue;
+                }
+                if m.connected() || m.protected() {
+                    obs.fail(
+                        "C39:gc-forgot-connected-or-protected",
+                        format!(
+                            "step {step}: gc removed peer #{i} although the model has it connected={} protected_tags={:?}",
+                            m.connected(),
+                            m.tags
+                        ),
+                    )?;
+                }
+                if expired {
+                    obs.label("gc-removed-expired");
+                } else {
+                    obs.label("gc-removed-not-expired");
+                    obs.note(format!("gc removed an unprotected disconnected peer after only {:?} ms of model time", m.age_ms));
+                }
+                dropped.push(*i);
+            }
+            for i in dropped {
+                model.remove(&i);
+            }
+        }
+
+        // ---- per-peer state: tracker vs model
+        let mut ok = peers.len() == model.len();
+        let mut why = String::new();
+        if !ok {
+            why = format!("tracker has {} peers, model {}", peers.len(), model.len());
+        }
+        for p in &peers {
+            let Some(i) = idx_of(&p.id) else {
+                ok = false;
+                why = format!("tracker has a peer the history never mentioned: {}", p.id);
+                break;
+            };
+            let Some(m) = model.get(&i) else {
+                ok = false;
+                why = format!("tracker has peer #{i} which the model does not have");
+                break;
+            };
+            let conns: Vec<usize> = m.conns.iter().copied().collect();
+            let tags: Vec<u32> = m.tags.iter().copied().collect();
+            if p.connections != conns
+                || p.num_connections != conns.len()
+                || p.trusted != m.trusted
+                || p.archival != m.archival
+                || p.node_kind != m.kind.name()
+                || p.full != m.kind.is_full()
+                || p.protected != tags
+                || p.disconnected_for.is_some() != m.age_ms.is_some()
+            {
+                ok = false;
+                why = format!("peer #{i}: tracker {p:?} vs model {m:?}");
+                break;
+            }
+        }
+        obs.check(ok, "C39:peer-state-differs-from-model", || format!("step {step} after {ev:?}: {why}"))?;
+
+        // ---- the published statistics equal a recount
+        let info = real.info();
+        let rr = recount_real(&peers);
+        let rm = recount_model(&model);
+        obs.check(info == rr, "C39:info-not-recount", || {
+            format!("step {step} after {ev:?}: info() = {info:?} but a recount of the tracked peers gives {rr:?}")
+        })?;
+        obs.check(info == rm, "C39:info-not-recount", || {
+            format!("step {step} after {ev:?}: info() = {info:?} but a recount of the model gives {rm:?}")
+        })?;
+        obs.check(real.all_connections_len() == model.values().map(|m| m.conns.len()).sum::<usize>(), "C39:peer-state-differs-from-model", || {
+            format!("step {step}: all_connections() has {} entries", real.all_connections_len())
+        })?;
+
+        // ---- per-tag protected counts
+        for tag in 0..TAGS {
+            let want = model.values().filter(|m| m.tags.contains(&tag)).count();
+            let got = real.protected_len(tag);
+            obs.check(got == want, "C39:protected-len-mismatch", || {
+                format!("step {step} after {ev:?}: protected_len({tag}) = {got}, peers protected with that tag = {want}")
+            })?;
+        }
+
+        // ---- watch channel
+        let wv = real.watch_value();
+        let fv = real.fresh_watch_value();
+        obs.check(wv == info && fv == info, "C39:watch-value-differs", || {
+            format!("step {step}: info() = {info:?}, long-lived watcher sees {wv:?}, fresh watcher sees {fv:?}")
+        })?;
+        let changed = real.watch_take_changed();
+        if info != last_seen {
+            obs.label("info-changed");
+            obs.check(changed, "C39:watch-not-notified", || {
+                format!("step {step} after {ev:?}: info changed {last_seen:?} -> {info:?} without a watch notification")
+            })?;
+            last_seen = info.clone();
+        }
+
+        // ---- classification
+        if info.num_connected_peers >= 2 {
+            obs.label("two-or-more-connected");
+        }
+        if info.num_connected_trusted_peers > 0 {
+            obs.label("trusted-counted");
+        }
+        if info.num_connected_full_nodes > 0 {
+            obs.label("full-counted");
+        }
+        if info.num_connected_archival_nodes > 0 {
+            obs.label("archival-counted");
+        }
+        if (0..TAGS).any(|t| real.protected_len(t) >= 2) {
+            obs.label("tag-shared-by-peers");
+        }
+        rolling = rolling.wrapping_mul(0x100000001b3) ^ digest_of(ev);
+        // non-trivial: the event changed something the property talks about
+        let observable = digest_of(&(&info, (0..TAGS).map(|t| real.protected_len(t)).collect::<Vec<_>>(), peers.len()));
+        let changed = observable != last_observable;
+        last_observable = observable;
+        obs.eval(changed.then_some(rolling));
+    }
+    Ok(())
+}
+
+pub fn run(ctx: &mut Ctx) {
+    ctx.assume("the model transcribes the documented event semantics (trust/protection/archival flags persist while disconnected; node kind and archival end with the last connection; agent versions only apply to connected peers); expiry is driven by the additive hook verif_age_disconnected, which moves the stored std Instants into the past");
+    ctx.assume("gc is only required to keep connected/protected peers; which unprotected disconnected peers it drops is followed, not asserted");
+    ctx.essential(&[
+        "gc-removed-expired",
+        "gc-kept-protected-expired",
+        "gc-kept-connected",
+        "info-changed",
+        "unprotect-removed-tag",
+        "trusted-counted",
+        "full-counted",
+        "archival-counted",
+        "multi-connection-peer",
+        "last-connection-removed",
+        "tag-shared-by-peers",
+    ]);
+    let cases = ctx.tier.pick(12_000, 200_000);
+    let max_evs = ctx.tier.pick(300, 300);
+    ctx.proptest(
+        "histories",
+        "histories of 10..300 events over <= 8 peers x 3 connection ids (add/remove connection, set_trusted, protect/unprotect tags 0..3, mark_as_archival, on_agent_version, add_peer_id, gc, age-disconnected); one evaluation per event (all oracles after that event). Non-trivial = evaluation after an event that changed the published statistics, a per-tag protected count or the number of tracked peers; distinct by rolling digest of the event prefix",
+        cases,
+        move || case_strategy(max_evs),
+        run_case,
+    );
 }
